@@ -17,11 +17,13 @@ Section Skip.
 
   Lemma step_bump warn n st r : step warn (bump_st n st) r = rmap (bump_st n) (step warn st r).
   Proof.
-    destruct r as [e|attrs f m]; cbn [Model.step bump_st fst snd].
-    - destruct warn; cbn [rmap]; [|reflexivity]. unfold bump_st. cbn [fst snd]. f_equal. f_equal. lia.
-    - destruct (negb (is_image attrs)); cbn [rmap].
-      + unfold bump_st. cbn [fst snd]. f_equal. f_equal. lia.
-      + destruct (add_result _ _ _ _ _) as [rs'|e]; cbn [bind rmap]; reflexivity.
+    assert (Hb : Ok (fst (bump_st n st), S (snd (bump_st n st))) = rmap (bump_st n) (Ok (fst st, S (snd st))))
+      by (unfold bump_st; cbn [rmap fst snd]; f_equal; f_equal; lia).
+    destruct r as [e|attrs f m|attrs e]; cbn [Model.step].
+    - destruct warn; [exact Hb | reflexivity].
+    - destruct (negb (is_image attrs)); [exact Hb|]. cbn [bump_st fst snd].
+      destruct (add_result _ _ _ _ _) as [rs'|e]; cbn [bind rmap]; reflexivity.
+    - destruct (negb (is_image attrs)); [exact Hb|]. destruct warn; [exact Hb | reflexivity].
   Qed.
 
   Lemma run_bump warn n l : forall st, run warn (bump_st n st) l = rmap (bump_st n) (run warn st l).
@@ -30,40 +32,45 @@ Section Skip.
     rewrite step_bump. destruct (step warn st r) as [st'|e]; cbn [rmap bind]; [apply IH | reflexivity].
   Qed.
 
-  Lemma step_skipped warn st x :
-    skipped x = true -> (warn = true \/ exists attrs f m, x = Data attrs f m) ->
-    step warn st x = Ok (bump_st 1 st).
+  Lemma step_skipped warn st x : skipped_in warn x = true -> step warn st x = Ok (bump_st 1 st).
   Proof.
-    intros Hs Hw. destruct x as [e|attrs f m]; cbn [Model.step skipped] in *.
-    - destruct Hw as [->|[? [? [? H]]]]; [reflexivity | discriminate].
+    intros Hs. destruct x as [e|attrs f m|attrs e]; cbn [Model.step skipped_in] in *.
     - rewrite Hs. reflexivity.
+    - rewrite Hs. reflexivity.
+    - destruct (negb (is_image attrs)); [reflexivity|]. cbn [orb] in Hs. rewrite Hs. reflexivity.
   Qed.
 
   Lemma run_skip warn st l1 x l2 :
-    skipped x = true -> (warn = true \/ exists attrs f m, x = Data attrs f m) ->
+    skipped_in warn x = true ->
     run warn st (l1 ++ x :: l2) = rmap (bump_st 1) (run warn st (l1 ++ l2)).
   Proof.
-    intros Hs Hw. rewrite !run_app. destruct (run warn st l1) as [st1|e]; cbn [bind rmap]; [|reflexivity].
-    cbn [Model.run]. rewrite (step_skipped _ _ _ Hs Hw). cbn [bind]. apply run_bump.
+    intros Hs. rewrite !run_app. destruct (run warn st l1) as [st1|e]; cbn [bind rmap]; [|reflexivity].
+    cbn [Model.run]. rewrite (step_skipped _ _ _ Hs). cbn [bind]. apply run_bump.
   Qed.
 
-  (** warn mode: an unreadable file, or (any mode) a data set without pixels, only adds a warning *)
+  (** an entry that is skipped in the given mode (unreadable or not extractable in warn mode, a data set
+      without pixels in either mode) only adds a warning *)
   Theorem skip warn l1 x l2 :
-    skipped x = true -> (warn = true \/ exists attrs f m, x = Data attrs f m) ->
+    skipped_in warn x = true ->
     parse_and_group warn (l1 ++ x :: l2) = bump_warn 1 (parse_and_group warn (l1 ++ l2)).
   Proof.
-    intros Hs Hw. unfold Model.parse_and_group. rewrite (run_skip _ _ _ _ _ Hs Hw).
+    intros Hs. unfold Model.parse_and_group. rewrite (run_skip _ _ _ _ _ Hs).
     destruct (run warn ([], 0%nat) (l1 ++ l2)) as [[rs w]|e]; cbn [rmap bind bump_warn]; [|reflexivity].
     unfold bump_st. cbn [fst snd].
     destruct (sort_groups _) as [gs|e]; cbn [bind bump_warn]; reflexivity.
   Qed.
 
-  (** strict mode: the exception of the first unreadable file propagates *)
-  Theorem skip_strict l1 e l2 st :
+  (** strict mode: the exception of the first unreadable / not extractable file propagates *)
+  Theorem skip_strict l1 x e l2 st :
+    strict_error x = Some e ->
     run false ([], 0%nat) l1 = Ok st ->
-    parse_and_group false (l1 ++ Fault e :: l2) = Err e.
+    parse_and_group false (l1 ++ x :: l2) = Err e.
   Proof.
-    intros H. unfold Model.parse_and_group. rewrite run_app, H. cbn [bind Model.run Model.step]. reflexivity.
+    intros Hx H. unfold Model.parse_and_group. rewrite run_app, H. cbn [bind Model.run].
+    destruct x as [e0|attrs f m|attrs e0]; cbn [strict_error Model.step] in *.
+    - injection Hx as ->. reflexivity.
+    - discriminate.
+    - destruct (is_image attrs); [|discriminate]. injection Hx as ->. reflexivity.
   Qed.
 End Skip.
 
